@@ -43,7 +43,20 @@ deriving DecidableEq, Repr, Inhabited
 
 /-- how a blocking rule slot produces its `*TokenResult`: a fresh `NewTokenResultBlockedWithCause`, the pooled
     `ctx.RuleCheckResult.ResetToBlockedWithCause` (what the built-in slots do), or a result object owned and reused by the slot -/
-inductive Style | fresh | ctx | own
+inductive Style
+  | fresh   -- `NewTokenResultBlockedWithCause(type, msg, rule, snapshot)`
+  | ctx     -- `ctx.RuleCheckResult.ResetToBlockedWithCause(…)` (what the built-in slots do)
+  | own     -- a result object owned by the slot, re-armed with `ResetToBlockedWithCause(…)`
+  | bare    -- `NewTokenResult(ResultStatusBlocked)` — no option at all
+  | typed   -- `NewTokenResult(ResultStatusBlocked, WithBlockType(type), WithRule(rule))`
+  | plain   -- `NewTokenResultBlocked(type)`
+  | msg     -- `NewTokenResultBlockedWithMessage(type, msg)`
+  | ctxT    -- `ctx.RuleCheckResult.ResetToPass(); ctx.RuleCheckResult.ResetToBlocked(type)`
+  | ctxM    -- `ctx.RuleCheckResult.ResetToPass(); ctx.RuleCheckResult.ResetToBlockedWithMessage(type, msg)`
+deriving DecidableEq, Repr, Inhabited
+
+/-- what a slot writes into the entry context (without panicking) before it behaves: `ctx.SetError`, `ctx.SetPair`, both -/
+inductive NoteB | none | err | pair | both
 deriving DecidableEq, Repr, Inhabited
 
 inductive RB
@@ -62,6 +75,7 @@ structure PSlot where
   order : Nat
   beh : PB
   hook : Option HB := none       -- registers an exit handler on the entry before behaving
+  note : NoteB := .none
 deriving DecidableEq, Repr, Inhabited
 
 structure RSlot where
@@ -70,12 +84,14 @@ structure RSlot where
   beh : RB
   hook : Option HB := none
   own : Nat := 0                 -- address of the slot-owned `*TokenResult` (style `own`)
+  note : NoteB := .none
 deriving DecidableEq, Repr, Inhabited
 
 structure SSlot where
   id : Nat
   order : Nat
   beh : SB
+  note : NoteB := .none          -- written in `OnEntryPassed` / `OnEntryBlocked`
 deriving DecidableEq, Repr, Inhabited
 
 def RB.passes : RB → Bool
@@ -90,10 +106,10 @@ deriving Repr, Inhabited
 /-! ## pooled objects -/
 
 structure BErr where
-  typ : Nat := 0
-  msg : Nat := 0
-  rule : Nat := 0
-  snap : Nat := 0
+  typ : Nat := 0                 -- `BlockTypeUnknown`
+  msg : Option Nat := none       -- none = ""
+  rule : Option Nat := none      -- none = nil
+  snap : Option Nat := none      -- none = nil
 deriving DecidableEq, Repr, Inhabited
 
 structure TokRes where
@@ -194,13 +210,24 @@ def runPrep : List PSlot → List Call × Hooks × Bool
       (.prep s.id :: l, hookOf s.id s.hook ++ k, p)
 
 /-- the block error a blocking recording slot reports -/
-def blockVal (s : RSlot) (typ : Nat) : BErr := { typ := typ, msg := s.id, rule := s.id, snap := s.order }
+def blockVal (s : RSlot) (typ : Nat) : BErr :=
+  match s.beh with
+  | .block .bare _ => {}
+  | .block .typed _ => { typ := typ, rule := some s.id }
+  | .block .plain _ => { typ := typ }
+  | .block .msg _ => { typ := typ, msg := some s.id }
+  | .block .ctxT _ => { typ := typ }
+  | .block .ctxM _ => { typ := typ, msg := some s.id }
+  | _ => { typ := typ, msg := some s.id, rule := some s.id, snap := some s.order }
 
 def doBlock (c : Nat) (s : RSlot) (st : Style) (typ : Nat) (h : Heap) : Heap × Nat :=
   match st with
-  | .fresh => newTokenResult h 1 (blockVal s typ)
   | .ctx => (resetToBlockedWith h (h.ctxs c) (blockVal s typ), h.ctxs c)
   | .own => (resetToBlockedWith h s.own (blockVal s typ), s.own)
+  -- partial-option resets of the pooled result, on a result just reset to pass (so nothing stale can show through)
+  | .ctxT => (resetToBlockedWith (resetToPass h (h.ctxs c)) (h.ctxs c) (blockVal s typ), h.ctxs c)
+  | .ctxM => (resetToBlockedWith (resetToPass h (h.ctxs c)) (h.ctxs c) (blockVal s typ), h.ctxs c)
+  | _ => newTokenResult h 1 (blockVal s typ)      -- every constructor allocates a fresh result with its block error
 
 inductive RuleOut
   | allPass
@@ -257,6 +284,58 @@ def chainEntry (ch : ChainDef) (c : Nat) (h : Heap) : Heap × List Call × Hooks
     let blk := if isBlockedTR h t then some (getBE h t) else none
     let (l3, p3) := runStats blk ch.ss
     (h, l1 ++ l2 ++ l3, k1 ++ k2, if p3 then none else some t)
+
+/-! ## what the slots write into the context (`ctx.SetError`, `ctx.SetPair`); nothing in the chain reads it -/
+
+/-- `ctx.Err()`: nil, the error set by slot `id`, or the error the deferred recover of `Entry` stores -/
+inductive CErr
+  | none
+  | slot (id : Nat)
+  | panic
+deriving DecidableEq, Repr, Inhabited
+
+structure CtxNote where
+  err : CErr := .none
+  pair : Option Nat := none      -- `ctx.GetPair(key)`: the id of the last slot that called `SetPair(key, id)`
+deriving DecidableEq, Repr, Inhabited
+
+def applyNote (n : CtxNote) (id : Nat) : NoteB → CtxNote
+  | .none => n
+  | .err => { n with err := .slot id }
+  | .pair => { n with pair := some id }
+  | .both => { err := .slot id, pair := some id }
+
+/-- prepare loop: notes of the slots that run; panicked? -/
+def prepNotes : List PSlot → CtxNote → CtxNote × Bool
+  | [], n => (n, false)
+  | s :: rest, n =>
+    match s.beh with
+    | .panic => (applyNote n s.id s.note, true)
+    | .ok => prepNotes rest (applyNote n s.id s.note)
+
+/-- rule loop: 0 = all passed, 1 = blocked, 2 = panicked -/
+def ruleNotes : List RSlot → CtxNote → CtxNote × Nat
+  | [], n => (n, 0)
+  | s :: rest, n =>
+    match s.beh with
+    | .panic => (applyNote n s.id s.note, 2)
+    | .block _ _ => (applyNote n s.id s.note, 1)
+    | _ => ruleNotes rest (applyNote n s.id s.note)
+
+def statNotes (blocked : Bool) : List SSlot → CtxNote → CtxNote × Bool
+  | [], n => (n, false)
+  | s :: rest, n =>
+    if (blocked && s.beh = .pBlocked) || (!blocked && s.beh = .pPassed) then (applyNote n s.id s.note, true)
+    else statNotes blocked rest (applyNote n s.id s.note)
+
+/-- the context's error / pair when `SlotChain.Entry` returns (a recovered panic stores its own error last) -/
+def entryNote (ch : ChainDef) : CtxNote :=
+  let (n, p) := prepNotes ch.ps {}
+  if p then { n with err := .panic } else
+  let (n, o) := ruleNotes ch.rs n
+  if o = 2 then { n with err := .panic } else
+  let (n, p) := statNotes (o = 1) ch.ss n
+  if p then { n with err := .panic } else n
 
 /-! ## exit -/
 
@@ -321,6 +400,7 @@ inductive Op
   | ident (e : String)
   | blockerr (e : String)
   | globalorder
+  | ctxq (e : String) (pair : Bool)      -- `ctx <e> err` / `ctx <e> pair`: read the entry's context now
 deriving Repr, Inhabited
 
 inductive Out
@@ -336,6 +416,8 @@ inductive Out
   | ident (c t : Nat)
   | berr (b : BErr)
   | gorder (p r s : List (String × Nat))
+  | cerr (c : CErr)
+  | cpair (p : Option Nat)
 deriving Repr, Inhabited
 
 structure EntryRec where
@@ -353,6 +435,7 @@ structure State where
   chains : List (String × ChainDef) := []
   entries : List EntryRec := []
   lastLog : List Call := []
+  cnote : Nat → CtxNote := fun _ => {}     -- context ↦ what `ctx.Err()` / `ctx.GetPair` answer
 deriving Inhabited
 
 def findChain (s : State) (n : String) : Option ChainDef := (s.chains.find? (·.1 = n)).map (·.2)
@@ -411,13 +494,14 @@ def stepAdd (s : State) (n : String) (slot : SlotSpec) : State × Out :=
   | some ch =>
     (setChain { s with h := (addSlot s.h ch slot).1 } n (addSlot s.h ch slot).2, sortedOut (addSlot s.h ch slot).2)
 
-def recordEntry (s : State) (e n : String) (r : Heap × List Call × EntryRes) : State × Out :=
+def recordEntry (s : State) (e n : String) (ch : ChainDef) (r : Heap × List Call × EntryRes) : State × Out :=
   match r.2.2 with
   | .passed c ks =>
-    ({ s with h := r.1, lastLog := r.2.1,
+    ({ s with h := r.1, lastLog := r.2.1, cnote := upd s.cnote c (entryNote ch),
               entries := s.entries ++ [{ name := e, chain := n, ctx := c, tr := r.1.ctxs c, hooks := ks }] }, .pass)
   | .blocked c a b =>
-    ({ s with h := r.1, lastLog := r.2.1,
+    -- the internal `Exit` has reset the context
+    ({ s with h := r.1, lastLog := r.2.1, cnote := upd s.cnote c {},
               entries := s.entries ++ [{ name := e, chain := n, ctx := c, tr := r.1.ctxs c, exited := true, blockAt := some a }] },
      .block b)
   | .escaped => ({ s with h := r.1, lastLog := r.2.1 }, .escaped)
@@ -428,7 +512,7 @@ def stepEntry (s : State) (e n : String) : State × Out :=
   | none =>
     match findChain s n with
     | none => (s, .bad)
-    | some ch => recordEntry s e n (apiEntry ch s.h)
+    | some ch => recordEntry s e n ch (apiEntry ch s.h)
 
 def stepWhenExit (s : State) (e : String) (id : Nat) (b : HB) : State × Out :=
   match findEntry s e with
@@ -446,7 +530,8 @@ def stepExit (s : State) (e : String) : State × Out :=
       match findChain s r.chain with
       | none => (s, .bad)
       | some ch =>
-        (setEntry { s with h := (exitBody ch.ss r.hooks r.ctx s.h).1, lastLog := (exitBody ch.ss r.hooks r.ctx s.h).2 }
+        (setEntry { s with h := (exitBody ch.ss r.hooks r.ctx s.h).1, lastLog := (exitBody ch.ss r.hooks r.ctx s.h).2,
+                           cnote := upd s.cnote r.ctx {} }
           { r with exited := true }, .ok)
   | none => (s, .bad)
 
@@ -471,6 +556,10 @@ def step (s : State) : Op → State × Out
     | none => (s, .bad)
   | .blockerr e => stepBlockErr s e
   | .globalorder => (s, defaultOrder)
+  | .ctxq e pair =>
+    match findEntry s e with
+    | some r => (s, if pair then .cpair (s.cnote r.ctx).pair else .cerr (s.cnote r.ctx).err)
+    | none => (s, .bad)
 
 def runOps (s : State) (ops : List Op) : State := ops.foldl (fun s o => (step s o).1) s
 
